@@ -10,6 +10,7 @@ import PoolModel.Util
   p2wsh <lockTime> <sequence> <program> <txtag> <w> <sigs>            → ok | error name, then the classification
   taproot <lockTime> <sequence> <program> <txtag> <w> <sigs> <commits> → idem
   wtype <version> <state> <expiry> <best>                     → `<witnessType> <isExpiry> <witnessSize>`
+  mgrwt <method> <version> <state> <expiry> <best>            → `<witnessType> <lockTime> <sequence>` | `<witnessType> err`
   mgrlock <version> <state> <expiry> <best> <isClose>         → `<lockTime> <sequence>` of the spend tx | err
 
 `<w>` = witness elements in hex separated by `,` (`-` = empty element, `_` = empty witness).
@@ -109,7 +110,7 @@ def drvStep (_ : DrvSt) (args : List String) : DrvSt × String :=
   | ["taproot", lt, sq, prog, tag, w, sigs, commits] =>
     match lt.toNat?, sq.toNat?, unhex prog, parseWitness w, parseSigs sigs, parseCommits commits with
     | some lt, some sq, some prog, some w, some tbl, some cm =>
-      let w' := if hasAnnex w then w.dropLast else w
+      let w' := stripAnnex w
       let code := match w'.reverse with | _ :: s :: _ => Sha256.sha256 s | _ => []
       let c : Ctx := { tapscript := true, lockTime := lt, sequence := sq, sigOK := tableSigOK tbl 2 tag code }
       let env : TapEnv := {
@@ -122,6 +123,17 @@ def drvStep (_ : DrvSt) (args : List String) : DrvSt × String :=
     | some v, some st, some e, some best =>
       let wt := determineWitnessType v st e best
       wt.name ++ " " ++ b2s (wtypeIsExpiry wt) ++ " " ++ toString (wtypeWitnessSize wt)
+    | _, _, _, _ => "bad-op"
+  | ["mgrwt", method, v, st, e, best] =>
+    match v.toNat?, st.toNat?, e.toNat?, best.toNat? with
+    | some v, some st, some e, some best =>
+      match managerWitnessType method v st e best with
+      | some wt =>
+        let isClose := method == "CloseAccount"
+        (match spendLockTime wt isClose best, createSpendTxSequence with
+          | some l, some sq => wt.name ++ " " ++ toString l ++ " " ++ toString sq
+          | _, _ => wt.name ++ " err")
+      | none => "unknown-method"
     | _, _, _, _ => "bad-op"
   | ["mgrlock", v, st, e, best, cl] =>
     match v.toNat?, st.toNat?, e.toNat?, best.toNat?, cl.toNat? with
